@@ -476,7 +476,7 @@ def subclass_check(obj, key, V, sdk_doc, sdk_xml: bytes, case) -> Optional[C.Fai
     return None
 
 
-XML_SURFACES = ["xml-cdata", "xml-charref", "xml-entity", "xml-comment"]
+XML_SURFACES = ["xml-cdata", "xml-charref", "xml-entity", "xml-comment", "xml-b64wrap"]
 
 
 def xml_surface_checks(sdk_xml: bytes, expected, V, rng: random.Random, case, only: Optional[str]) -> List[C.Failing]:
@@ -498,7 +498,16 @@ def xml_surface_checks(sdk_xml: bytes, expected, V, rng: random.Random, case, on
         tgt = l2[rng.randrange(len(l2))]
         text = tgt.text
         doctype = ""
-        if surface == "xml-comment":
+        if surface == "xml-b64wrap":
+            # xs:base64Binary allows white space: a Blob value wrapped over several lines is the same value
+            blobs = [e for e in r2.iter() if isinstance(e.tag, str) and etree.QName(e).localname == "value" and e.text
+                     and etree.QName(e.getparent()).localname == "blob"]
+            if not blobs:
+                continue
+            for e in blobs:
+                e.text = "\n    " + "\n    ".join(e.text[j:j + 4] for j in range(0, len(e.text), 4)) + "\n  "
+            data = etree.tostring(r2, xml_declaration=True, encoding="utf-8")
+        elif surface == "xml-comment":
             tgt.getparent().insert(0, etree.Comment(" note "))
             data = etree.tostring(r2, xml_declaration=True, encoding="utf-8")
         else:
